@@ -19,6 +19,6 @@ Toolchain: export GO=/root/go/pkg/mod/golang.org/toolchain@v0.0.1-go1.24.0.linux
 
 DELIVER, inside {wt}/MUTANT/ (create the directory):
   - patch.diff : `git -C {wt} diff -- . ':!MUTANT'` of your change (source only).
-  - demo.sh : a self-contained shell script (uses $GO as above; creates its own scratch module under a mktemp dir and removes it) that exits 0 when the property holds for its scenario and non-zero when it is violated; it takes the path of a built goderive binary as $1. It must FAIL with your change and PASS on the unchanged code (verify both: build the unchanged code with `git stash` / `git stash pop`, or from `git worktree`'s HEAD via `git -C {wt} stash`).
+  - demo.sh : a self-contained shell script (uses $GO as above; creates its own scratch module under a mktemp dir and removes it) that exits 0 when the property holds for its scenario and non-zero when it is violated; it takes the path of a built goderive binary as $1. It must FAIL with your change and PASS on the unchanged code (verify both. To build the unchanged code do NOT use `git stash` (the stash is shared between worktrees and other testers work in parallel): save your change with `git -C {wt} diff > /tmp/mut/{pid.lower()}-my.patch`, `git -C {wt} checkout -- .`, build the original binary, then `git -C {wt} apply /tmp/mut/{pid.lower()}-my.patch`).
   - meta.json : {{"property": "{pid}", "summary": "<one sentence: what you changed>", "needs": "<what specific input/flags/history/schedule is needed for the bug to manifest>", "why_tests_pass": "<one sentence>", "verified": "<the commands you ran and what you observed for unchanged vs changed>"}}
 Keep the change small (a few lines). Do not commit. When done, reply with a short summary (what you changed, how it manifests, confirmation that build + tests pass and that demo.sh passes on the original and fails on the mutant). Keep each of your responses short (never more than ~300 lines in one file write).""")
